@@ -1,6 +1,7 @@
 /- Driver for C06: recompute every harness line with the model (DIFF), run the judges (SPECFAIL). -/
 import SwV.Common.Drv
 import SwV.Model.C06
+import SwV.Model.C06RS
 import SwV.Spec.C06
 import SwV.Gen.C06
 open SwV.Drv SwV.Model.C06 SwV.Spec.C06
@@ -67,7 +68,12 @@ def step (st : St) (n : Nat) (ln : Line) : St × List String :=
     let mat := chunks k m (tokBytes (o.getD 0 "-"))
     -- T1: the harness runs with the same shard counts the extractor sees
     let d := if k == genK && m == genM then [] else [s!"DIFF {n} config k/m differ from the extracted constants"]
-    ({ st with k := k, m := m, mat := mat }, d ++ ["COV config"])
+    -- the encoding matrix recovered from the REAL library is the matrix the MDS theorems (Props: rs_mds,
+    -- rs_codec_mds, ec_rebuild_concrete) are about
+    let d2 := if k == 10 && m == 4 then
+        (if mat == rsParity then ["COV config.rs-matrix"] else [s!"DIFF {n} config the library's parity matrix differs from rsParity (SwV/Model/C06RS.lean)"])
+      else []
+    ({ st with k := k, m := m, mat := mat }, d ++ d2 ++ ["COV config"])
   | "reset" =>
     let L := tokNat (a.getD 0 ""); let S := tokNat (a.getD 1 ""); let buf := tokNat (a.getD 2 "")
     let D := tokBytes (a.getD 3 "-")
@@ -112,13 +118,18 @@ def step (st : St) (n : Nat) (ln : Line) : St × List String :=
     let lost := (List.range tot).filter fun i => !(presentMask.getD i true)
     let present := (st.modelShards.zip presentMask).map fun sp => if sp.2 then some sp.1 else none
     let dm := decodeMatrix st.k st.mat presentMask
+    -- the Gauss–Jordan decoding matrix used here (and compared with Reconstruct through `model`) is the
+    -- kernel-checked certificate the theorem `rs_codec_mds` is about
+    let cd := if st.k == 10 && st.m == 4 && lost.length ≤ 4 then
+        (if dm == certDM presentMask then ["COV rebuild.cert-matrix"] else [s!"DIFF {n} rebuild decodeMatrix differs from the certified matrix lostmask={mask}"])
+      else []
     let r := rebuild (gfCodec st.k st.mat dm) genS present
     let model := match r with
       | some all => "ok" :: lost.map fun i => hexOfNats (all.getD i [])
       | none => ["err"]
     let implOk := o.getD 0 "" == "ok"
     let j := rebuildJudge st.m st.implShards lost implOk ((o.drop 1).map tokBytes)
-    (st, diff n ln model ++ judgeOut n j s!"L={st.L} S={st.S} n={st.D.length} lostmask={mask}"
+    (st, diff n ln model ++ cd ++ judgeOut n j s!"L={st.L} S={st.S} n={st.D.length} lostmask={mask}"
       ++ [if lost.length ≤ st.m then s!"COV rebuild.lost{lost.length}" else "COV rebuild.too-many-lost"]
       ++ [if r.isSome then "COV rebuild.ok" else "COV rebuild.err"])
   | "decseg" =>
